@@ -397,7 +397,7 @@ impl Prop for C06 {
         "C06"
     }
     fn rule(&self, tier: Tier) -> String {
-        format!("E-SHAPE: 5 catalogue networks (two 4-link lines and one 3-link line with link lengths 5/150/1000/4000 m and every elevation pattern (flat, +1 %, -1.5 %, vee, 4 points), heading pattern (absent, straight, gentle curve, sharp+gentle, wrap-around in both directions) and catenary pattern (none, one, two sections); a passing siding; a Y merge) with flips; EVERY link sequence of length <= {} over each network's links and the dummy index (contiguous and non-contiguous) x the one-call build (every other composition into extend calls is compared differentially with ==) x finish() or not; plus every full-length route of the 4-link lines. Oracle: reference geometry from walking the route's own elevation/heading/catenary points, compared at 7 interior points of every segment. distinct_nontrivial = distinct (network, contiguous?, length, outcome, which features the route carries) signatures.", if tier.is_thorough() { 4 } else { 3 })
+        format!("E-SHAPE: 5 catalogue networks (two 4-link lines and one 3-link line with link lengths 5/150/1000/4000 m and every elevation pattern (flat, +1 %, -1.5 %, vee, 4 points), heading pattern (absent, straight, gentle curve, sharp+gentle, wrap-around in both directions) and catenary pattern (none, one, two sections); a passing siding; a Y merge) with flips; EVERY link sequence of length <= {} over each network's links and the dummy index (contiguous and non-contiguous) x the one-call build (every other composition into extend calls is compared differentially with ==) x finish() or not; plus every full-length route of the 4-link lines. Oracle: reference geometry from walking the route's own elevation/heading/catenary points, compared at 7 interior points of every segment. distinct_nontrivial = distinct (network, contiguous?, length, outcome, which features the route carries) signatures.", if tier.is_thorough() { 5 } else { 4 })
     }
     fn assumptions(&self) -> Vec<String> {
         vec![
@@ -409,7 +409,7 @@ impl Prop for C06 {
     fn explore(&self, ctx: &mut Ctx) {
         let nets = networks();
         let tp = train_params(300.0, 25.0);
-        let max_len = if ctx.tier.is_thorough() { 4 } else { 3 };
+        let max_len = if ctx.tier.is_thorough() { 5 } else { 4 };
         for (ni, (name, net)) in nets.iter().enumerate() {
             let n_links = net.0.len();
             let mut seqs = all_seqs(n_links, max_len);
